@@ -112,6 +112,12 @@ func genFlow(prop string, r *rng, n int, tier string, emit func(string)) {
 				r.intn(100000), r.pickS("sync", "fanout"), r.pick(4, 8), r.pick(1, 1, 2), r.pick(12, 24, 48)))
 			continue
 		}
+		if prop == "C04" && r.chance(12) {
+			// drain race: the discarding child keeps freeing its single slot, several parent workers compete for it each time
+			emit(fmt.Sprintf("tree %d 1 N sync %d 4 0 0 100 0 0 0 1 0 0 1 0 N sync 1 1 1 0 100 0 0 0 1 0 %d 0 0 ; stream %d ; opts stop=- gm=16",
+				r.intn(100000), r.pick(4, 8, 16), r.pick(0, 5, 20), r.pick(200, 400, 800)))
+			continue
+		}
 		g := &flowGen{r: r, prop: prop}
 		nroots := r.intn(3) + 1
 		for j := 0; j < nroots; j++ {
